@@ -94,6 +94,8 @@ def match_known(known, pid, r):
             continue
         if k.get('path') is not None and list(k['path']) != list(r.get('path', [])):
             continue
+        if k.get('path_contains') and not all(any(x == lbl or x in lbl for lbl in r.get('path', [])) for x in k['path_contains']):
+            continue
         return k
     return None
 
